@@ -2,7 +2,7 @@
    ExtrOcamlBasic only: bool, option, unit, list, prod, sumbool, sumor map to OCaml's own
    types; N, Z, positive, nat stay the extracted Coq datatypes.  No Extract Constant. *)
 From Coq Require Extraction ExtrOcamlBasic.
-From Verif Require Import Base.Bytestr gen.Tables Lex.LexModel Cli.Tsh Front.Ast Front.FrontModel Back.BashLines Back.Transpile Back.BashConv Back.BatchConv Back.Pipeline Back.BashSyntax Back.BashFacts Back.BatchSyntax Sem.Src.
+From Verif Require Import Base.Bytestr gen.Tables Lex.LexModel Cli.Tsh Front.Ast Front.FrontModel Back.BashLines Back.Transpile Back.BashConv Back.BatchConv Back.Pipeline Back.BashSyntax Back.BashFacts Back.BatchSyntax Sem.Src Sem.Words Sem.FsSem Sem.AppArgs.
 Extraction Language OCaml.
 Separate Extraction
-  Lex.LexModel.tokenize Tables.toktype_index Cli.Tsh.tsh Front.FrontModel.parse_main Base.Bytestr.dec_Z Back.BashConv.emit_bash Back.BatchConv.emit_batch Sem.Src.run Back.Pipeline.run_history Back.BashSyntax.well_formed Back.BashFacts.emits_all Back.BatchSyntax.batch_wf Back.BatchSyntax.batch_lines.
+  Lex.LexModel.tokenize Tables.toktype_index Cli.Tsh.tsh Front.FrontModel.parse_main Base.Bytestr.dec_Z Back.BashConv.emit_bash Back.BatchConv.emit_batch Sem.Src.run Back.Pipeline.run_history Back.BashSyntax.well_formed Back.BashFacts.emits_all Back.BatchSyntax.batch_wf Back.BatchSyntax.batch_lines Sem.Words.dq Sem.FsSem.run_sh Sem.AppArgs.first_probe.
